@@ -1,1 +1,3 @@
-fn main() {}
+fn main() {
+    vcore::runner::main_for(fam_ics20::Ics20Family)
+}
